@@ -199,6 +199,10 @@ func ParseXML(data []byte) (*Node, []XMLProblem) {
 				}
 				seen[rawName] = true
 				if a.Name.Space == "xmlns" {
+					if a.Value == "" {
+						// Namespaces in XML 1.0: a prefix cannot be undeclared, xmlns:p="" is an error every consumer reports
+						add("ns-unbound", "prefix %q is bound to the empty namespace name on <%s> (xmlns:%s=\"\")", a.Name.Local, t.Name.Local, a.Name.Local)
+					}
 					fr.ns[a.Name.Local] = a.Value
 				} else if a.Name.Space == "" && a.Name.Local == "xmlns" {
 					fr.ns[""] = a.Value
